@@ -844,7 +844,9 @@ func (m *fzModel) classifyImage(root string, img map[string][]byte) string {
 			Tail    uint64
 			Offset  uint64
 		}
-		if err := rlp.DecodeBytes(meta, &o); err != nil {
+		// decode like newMetadata does: one value from the stream, trailing stale bytes
+		// (a shorter encoding written over a longer one) are ignored
+		if err := rlp.Decode(bytes.NewReader(meta), &o); err != nil {
 			return "torn-metadata-file"
 		}
 		size := int64(len(idx)) / 6 * 6
